@@ -3,8 +3,8 @@
 #  (1) patch applies at /repo HEAD, (2) demo passes without / fails with the patch, (3) the existing suite passes with the patch.
 # Writes /tmp/seedeval/<ID>_<N>.summary (one line) and .log
 ID=$1; N=$2
-SRC=/tmp/seed/$ID/seed_out/$N
-OUT=/tmp/seedeval/${ID}_$N
+SRC=${SEEDROOT:-/tmp/seed}/$ID/seed_out/$N
+OUT=${EVALOUT:-/tmp/seedeval}/${ID}_$N
 WT=/tmp/confirm/repo
 export CARGO_TARGET_DIR=/tmp/confirm/target CARGO_INCREMENTAL=0 CARGO_NET_OFFLINE=true
 exec >$OUT.log 2>&1
